@@ -513,6 +513,11 @@ func c14RunExec(s c14Scenario) (res c14Result) {
 	run := func(t *plush.Template, gid string) outcome {
 		ctx, env := mkctx(parent)
 		ctx.Set("gid", gid) // data that differs from execution to execution
+		// ... and so does the time format: every other execution binds its own TIME_FORMAT in its context
+		var gi, xi, qi int
+		if n, _ := fmt.Sscanf(gid, "g%dx%dq%d", &gi, &xi, &qi); n == 3 && (gi+xi)%2 == 1 {
+			ctx.Set("TIME_FORMAT", "2006-01-02 15h")
+		}
 		var out string
 		var err error
 		if s.Kind == "pagelayout" {
